@@ -1,6 +1,7 @@
 import BlobfinderModel.Model.Proto
 import BlobfinderModel.Model.Lattice
 import BlobfinderModel.Model.Fastmatch
+import BlobfinderModel.Model.Tumble
 import BlobfinderModel.Model.Fullmatch
 import BlobfinderModel.Model.Udf
 import BlobfinderModel.Gen.Patterns
@@ -99,6 +100,27 @@ def opFastmatch (ws : List String) : String :=
     | _, _, _, _ => "bad-op"
   | _ => "bad-op"
 
+/-- `tumble tol minw minmatch minD2 maxD2|inf sin2 zy zx ay ax by bx (py px elev)*`: one candidate pair of `_do_match` -/
+def opTumble (ws : List String) : String :=
+  match ws with
+  | tol :: mw :: mm :: d0 :: d1 :: s2 :: rest =>
+    match parseRat? tol, parseRat? mw, mm.toInt?, parseRat? d0, parseRat? s2, rats? rest with
+    | some tol, some mw, some mm, some d0, some s2, some (zy :: zx :: ay :: ax :: by_ :: bx :: pk) =>
+      let maxD2 : Option (Option Rat) := if d1 = "inf" then some none else (parseRat? d1).map some
+      match maxD2 with
+      | none => "bad-op"
+      | some maxD2 =>
+        let peaks := peaksOf pk
+        let P : CheckP := { minMatch := mm, minD2 := d0, maxD2 := maxD2, sin2 := s2 }
+        match tumble P peaks (peaks.map fun p => Gen.fm_weight_ok p.elev mw) tol (zy, zx) (ay, ax) (by_, bx) with
+        | .none => "none"
+        | .degenerate => "degenerate"
+        | .some z a b m idx =>
+          s!"some {showV z} {showV a} {showV b} | " ++ String.join (m.map fun t => if t then "1" else "0") ++ " | " ++
+            " ".intercalate (idx.map fun (i, j) => s!"{i} {j}")
+    | _, _, _, _, _, _ => "bad-op"
+  | _ => "bad-op"
+
 def opRound (ws : List String) : String :=
   match rats? ws with
   | some l => " ".intercalate (l.map fun x => toString (roundHalfEven x))
@@ -142,6 +164,7 @@ def step (line : String) : String :=
   | "wls" :: ws => opWls ws
   | "layout" :: ws => opLayout ws
   | "fastmatch" :: ws => opFastmatch ws
+  | "tumble" :: ws => opTumble ws
   | "round" :: ws => opRound ws
   | "fullmatch" :: ws => opFullmatch ws
   | "udf" :: ws => opUdf ws
